@@ -1,24 +1,30 @@
 """Algorithm family pipeline (spec/AlgoOps.tla, AlgoDom.tla, Algo.tla, AlgoTrace.tla,
 harness/algo_driver.cpp, harness/iter_wrappers.hpp).  Serves C06.
 
-  1. TLC model-checks Algo.tla (Post(op, x, Ref(op, x)) and uniqueness of the returned value on the whole
-     bounded domain, |Dom| = DomSize) and exports the shared input domain (key sequences) + the domain size
-     of every algorithm.
+  1. TLC model-checks Algo.tla (Post(op, x, Ref(op, x)) and uniqueness of the returned value on a bounded
+     domain, |Dom| = DomSize) and exports the shared input domain (every key sequence up to MaxLen).
   2. compile probes decide which (algorithm, iterator category) instantiations the working tree can
      drive; the driver is built for tetl and, with -DVH_STD, for libstdc++ (calibration).
-  3. the drivers replay the exported domain through every algorithm / category; AlgoTrace.tla judges every
-     event and checks exact coverage of the domain per (algorithm, category) group.
+  3. the drivers replay the exported sequences through every algorithm / category; AlgoTrace.tla judges
+     every event and checks exact coverage of the domain per (algorithm, category) group.
 Python only orchestrates: it never compares results."""
 import json
 import os
+import subprocess
 import threading
 from concurrent.futures import ThreadPoolExecutor
 
 import vlib
 
-CONSTS = {"quick": {"MaxLen": 5, "MaxLen2": 3, "MaxPair": 4, "MaxA2": 4},
-          "thorough": {"MaxLen": 6, "MaxLen2": 3, "MaxPair": 5, "MaxA2": 5}}
-NFILES = {"quick": 7, "thorough": 14}
+# replayed domain (spec/AlgoDom.tla; AlgoTrace_<tier>.cfg carries the same numbers)
+CONSTS = {"quick": {"MaxLen": 5, "MaxLen2": 3, "MaxPair": 3, "MaxA2": 4},
+          "thorough": {"MaxLen": 6, "MaxLen2": 3, "MaxPair": 4, "MaxA2": 6}}
+# bound on which Algo.tla proves its theorems (smaller than the replayed domain: the theorems are
+# about the specification, every replayed event is judged by the same operators anyway)
+MC_CONSTS = {"quick": {"MaxLen": 4, "MaxLen2": 3, "MaxPair": 3, "MaxA2": 3},
+             "thorough": {"MaxLen": 6, "MaxLen2": 3, "MaxPair": 4, "MaxA2": 5}}
+NFILES = {"quick": 6, "thorough": 30}
+TLC_SLOTS = threading.BoundedSemaphore(12)      # trace validators running side by side (both impls)
 
 # (algorithm, category) instantiations the standard requires but the tree may not compile:
 # probed on every run; enabled in the driver (-DVH_OK_<fn>_<policy>) as soon as they compile
@@ -26,10 +32,10 @@ SUSPECTS = [("search_n", "P_fwd"), ("search_n", "P_ra"), ("inplace_merge", "P_bi
             ("stable_partition", "P_bidi"), ("shift_right", "P_fwd")]
 
 
-def model(tier, rep, out):
-    c = {k: str(v) for k, v in CONSTS[tier].items()}
-    r = vlib.tlc_mc("Algo.tla", "Algo.cfg", "algo_mc_" + tier, workers=6, constants=c, heap="6g", timeout=2400)
-    out["mc"] = r
+def model(tier, out):
+    c = {k: str(v) for k, v in MC_CONSTS[tier].items()}
+    c["ExportLen"] = str(CONSTS[tier]["MaxLen"])
+    out["mc"] = vlib.tlc_mc("Algo.tla", "Algo.cfg", "algo_mc_" + tier, workers=6, constants=c, heap="6g", timeout=3000)
 
 
 def probe(fn, pol):
@@ -52,7 +58,6 @@ def build_drivers(out):
 
 
 def listing(binp):
-    import subprocess
     p = subprocess.run([binp, "list"], capture_output=True, text=True, timeout=60)
     if p.returncode != 0:
         raise vlib.ModelFailure("algo driver list failed")
@@ -63,12 +68,12 @@ def listing(binp):
     return res
 
 
-def partition(ops, weight, k):
+def partition(items, weight, k):
     bins = [[0, []] for _ in range(k)]
-    for op in sorted(ops, key=lambda o: -weight[o]):
+    for it in sorted(items, key=lambda o: -weight[o]):
         b = min(bins, key=lambda b: b[0])
-        b[0] += weight[op]
-        b[1].append(op)
+        b[0] += weight[it]
+        b[1].append(it)
     return [b[1] for b in bins if b[1]]
 
 
@@ -76,21 +81,32 @@ def execute(impl, binp, domain, parts, tier):
     d = vlib.workdir("traces")
     tasks = []
     outs = []
-    for i, ops in enumerate(parts):
+    for i, grs in enumerate(parts):
         tp = os.path.join(d, "algo_%s_%s_%d.ndjson" % (impl, tier, i))
-        tasks.append(([binp, "run", domain, ",".join(ops)], tp))
+        tasks.append(([binp, "run", domain, ",".join("%s/%s" % g for g in grs)], tp))
         outs.append(tp)
-    res = vlib.run_parallel(tasks)
+    res = vlib.run_parallel(tasks, par=8)
     groups = {}
-    unsupported = set()
     for _, err in res:
         for line in err.splitlines():
             w = line.split()
             if w and w[0] == "GROUP":
                 groups[(w[1], w[2])] = int(w[3])
-            elif w and w[0] == "UNSUPPORTED":
-                unsupported.add("%s/%s" % (w[1], w[2]))
-    return outs, groups, sorted(unsupported)
+    return outs, groups
+
+
+def validate(traces, cfg, tag, heap):
+    """like vlib.tv_parallel, with a bounded number of JVM service threads per TLC and a global limit on
+    concurrently running validators (many small TLCs run side by side)."""
+    env = {"JAVA_TOOL_OPTIONS": "-XX:ParallelGCThreads=2 -XX:CICompilerCount=2"}
+
+    def one(i, tp):
+        with TLC_SLOTS:
+            return vlib.tlc_tv("AlgoTrace.tla", cfg, tp, "%s_%d" % (tag, i), heap, 3600, env)
+    with ThreadPoolExecutor(max_workers=len(traces)) as ex:
+        res = list(ex.map(lambda a: one(*a), enumerate(traces)))
+    return {"events": sum(r["events"] for r in res), "deviations": [d for r in res for d in r["deviations"]],
+            "wall": max(r["wall"] for r in res)}
 
 
 def pipeline(tier, rep, calibrate=True):
@@ -102,23 +118,17 @@ def pipeline(tier, rep, calibrate=True):
             fn(*a)
         except Exception as e:  # noqa: BLE001 - re-raised in the main thread
             errs.append(e)
-    th = [threading.Thread(target=guarded, args=(model, tier, rep, out)), threading.Thread(target=guarded, args=(build_drivers, out))]
+    th = [threading.Thread(target=guarded, args=(model, tier, out)), threading.Thread(target=guarded, args=(build_drivers, out))]
     for t in th:
         t.start()
-    th[1].join()
-    if errs:
-        th[0].join()
-        raise errs[0]
-    # the key sequences are a function of the constants: TLC exports them within seconds, but the
-    # theorems take longer - the replay starts as soon as the export is there, the verdict of the model
-    # check is awaited before anything is reported
-    th[0].join()
+    for t in th:
+        t.join()
     if errs:
         raise errs[0]
     mc = out["mc"]
     rep.add_mc("Algo", mc)
     seqs = [g for g in mc["gen"] if g["kind"] == "seq"]
-    sizes = {g["op"]: g["size"] for g in mc["gen"] if g["kind"] == "op"}
+    sizes = {g["op"]: g["size"] for g in mc["gen"] if g["kind"] == "op"}     # at the MC bound: load balancing only
     domain = os.path.join(vlib.workdir("scripts"), "algo_domain_%s.ndjson" % tier)
     with open(domain, "w") as f:
         f.write(json.dumps(dict(kind="cfg", **CONSTS[tier])) + "\n")
@@ -129,31 +139,33 @@ def pipeline(tier, rep, calibrate=True):
         if set(lst[impl]) != set(sizes):
             raise vlib.ModelFailure("algo driver (%s) and Algo.tla disagree on the set of algorithms: %s"
                                     % (impl, sorted(set(lst[impl]) ^ set(sizes))))
-    nfiles = NFILES[tier]
+    only = [o for o in os.environ.get("VERIF_ALGO_OPS", "").split(",") if o]     # debugging aid, noted in the evidence
     res = {}
 
     def one(impl):
-        weight = {op: sizes[op] * len(lst[impl][op]["cats"]) for op in sizes}
-        parts = partition(list(sizes), weight, nfiles)
-        traces, groups, unsup = execute(impl, out["bins"][impl], domain, parts, tier)
-        for op in sizes:
-            for cat in lst[impl][op]["cats"]:
-                if (op, cat) not in groups:
-                    raise vlib.ModelFailure("algo driver (%s) did not run group %s/%s" % (impl, op, cat))
-        tv = vlib.tv_parallel("AlgoTrace.tla", "AlgoTrace_%s.cfg" % tier, traces, "algo_tv_%s_%s" % (impl, tier), par=nfiles,
-                              heap="3g" if tier == "quick" else "4g")
-        res[impl] = (tv, groups, unsup)
+        want = [(op, cat) for op in sorted(sizes) for cat in lst[impl][op]["cats"] if not only or op in only]
+        parts = partition(want, {g: sizes[g[0]] for g in want}, NFILES[tier])
+        traces, groups = execute(impl, out["bins"][impl], domain, parts, tier)
+        missing = [g for g in want if g not in groups]
+        if missing:
+            raise vlib.ModelFailure("algo driver (%s) did not run groups %s" % (impl, missing[:5]))
+        tv = validate(traces, "AlgoTrace_%s.cfg" % tier, "algo_tv_%s_%s" % (impl, tier), "2500m" if tier == "quick" else "3500m")
+        res[impl] = (tv, groups)
     impls = ["etl", "std"] if calibrate else ["etl"]
     with ThreadPoolExecutor(max_workers=2) as ex:
         list(ex.map(one, impls))
-    tv, groups, unsup = res["etl"]
+    tv, groups = res["etl"]
     rep.add_tv("Algo", tv, len(groups))
     mod = rep.cov["modules"]["Algo"]
+    unsup = sorted("%s/%s" % (op, c) for op in lst["etl"] for c in lst["etl"][op]["unsupported"])
     mod.update({"algorithms": len(sizes), "groups_algorithm_x_iterator_category": len(groups),
-                "domain_inputs_per_category": sum(sizes.values()), "constants": CONSTS[tier],
+                "distinct_inputs_ptr_category": sum(n for (op, cat), n in groups.items() if cat == "ptr"),
+                "constants": CONSTS[tier], "mc_constants": MC_CONSTS[tier],
                 "not_drivable": unsup, "compile_probes": out["probe"]})
-    rep.cov["exhaustive"] = True
-    rep.sample({"module": "Algo", "domain_sizes": dict(sorted(sizes.items())[:8])})
+    if only:
+        rep.notes.append({"restricted_to_ops": only})
+    rep.cov["exhaustive"] = not only
+    rep.sample({"module": "Algo", "inputs_per_group": {"%s/%s" % k: v for k, v in sorted(groups.items())[:8]}})
     if calibrate:
         ctv = res["std"][0]
         if ctv["deviations"]:
